@@ -121,7 +121,7 @@ fn random(a: &Args) {
                 seed: rng.gen(),
                 jitter_us: *[0u64, 5, 50, 300].choose(&mut rng).unwrap(),
                 panics,
-                policy: rng.gen_range(0..3),
+                policy: rng.gen_range(0..4),
             };
             let st = run_dispatch(&mut r, &world, &opts);
             max_held = max_held.max(st.max_held);
